@@ -9,7 +9,7 @@ import z3
 
 import csr as C
 from csr import path_of
-from engine import Agg, Cell, Engine, Opaque, Ref, State, UNIT, Z
+from engine import Agg, Cell, Engine, Opaque, Opt, Ref, State, UNIT, Z
 from mir import Unsupported, find
 from models import Models, deref
 
@@ -38,8 +38,18 @@ class PemEnv(C.CsrEnv):
             return [(st, v)]
 
         def result(ok, payload, what):
-            return one(Opaque("result", (ok, payload, Opaque("error", what))))
+            # (the error is an arbitrary value of the error enum: code that inspects it forks on its discriminant)
+            return one(Opaque("result", (ok, payload, Opaque("enum", (z3.Int(f"error_kind_{what}"), None)))))
 
+        # formatting calls that receive the decoded key block (error texts must not quote key material)
+        if re.match(r"^(core::fmt::rt::)?Argument::<'_>::new_\w+::<", c) or re.match(r"^<.* as (std::fmt::)?(Debug|Display)>::fmt$", c) or \
+                re.match(r"^<.* as ToString>::to_string$", c):
+            ds = [path_of(a) for a in args]
+            if any("parsed-pem" in d or "contents(" in d for d in ds):
+                st.events.append(("leak", re.sub(r"::<.*", "", c), ds))
+            return one(Opaque("fmt-arg", path_of(args[0])))
+        if re.match(r"^Arguments::<'_>::(new|new_const|new_v1|from_str)", c) or re.match(r"^(alloc::fmt::|std::fmt::)?format$", c) or re.match(r"^(core::hint::)?must_use::<", c):
+            return one(Opaque("formatted", [deref(a) for a in args]))
         if re.match(r"^(certificate::)?Certificate::der$", c):
             return one(Ref(Cell(Opaque("der-of", "certificate"))))
         if re.match(r"^<Certificate(SigningRequest|RevocationList)?Der<'_> as Deref>::deref$", c):
@@ -66,7 +76,7 @@ class PemEnv(C.CsrEnv):
         if re.match(r"^(pem::)?EncodeConfig::set_line_wrap$", c):
             return one(Opaque("encode-config", f"{deref(args[0]).data}+line_wrap={z3.simplify(args[1].e)}"))
         # loaders
-        if re.match(r"^pem::parse::<", c):
+        if re.match(r"^(pem::)?parse::<", c):
             st.events.append(("parse", path_of(args[0])))
             return result(z3.Bool("pem_parses"), Opaque("parsed-pem", path_of(args[0])), "pem")
         if re.match(r"^Result::<.*>::or::<", c):
@@ -84,8 +94,29 @@ class PemEnv(C.CsrEnv):
             key = [v for k, v in nm.items() if c.endswith(k)][0]
             st.events.append(("der-loader", key, [path_of(a) for a in args]))
             return result(z3.Bool("der_loader_ok"), Opaque("loaded"), "der")
+        if re.match(r"^core::slice::<impl \[.*\]>::iter$", c) and isinstance(deref(args[0]), Opaque) and deref(args[0]).what == "sym-vec":
+            return one(Opaque("sym-iter", deref(args[0]).data))
+        if re.match(r"^<std::slice::Iter<'_, .*> as Iterator>::(find|find_map|position|last|nth)", c) and isinstance(deref(args[0]), Opaque) \
+                and deref(args[0]).what == "sym-iter":
+            self.m.fresh += 1
+            return one(Opt(z3.Bool(f"found!{self.m.fresh}"), Ref(Cell(Opaque("element", (deref(args[0]).data, "found"))))))
+        if re.match(r"^Option::<.*>::unwrap_or$", c) and isinstance(args[0], Opt):
+            o = args[0]
+            s_none = st.clone()
+            s_none.pc.append(z3.Not(o.cond))
+            out = []
+            if s_none.feasible():
+                out.append((s_none, args[1]))
+            st.pc.append(o.cond)
+            if st.feasible():
+                out.append((st, o.payload))
+            return out
+        if re.match(r"^(pem::)?parse_many::<", c):
+            st.events.append(("parse", path_of(args[0])))
+            st.pc.append(z3.Int("len_parsed_blocks") >= 0)
+            return result(z3.Bool("pem_parses"), Opaque("sym-vec", "parsed_blocks"), "pem")
         r = C.CsrEnv.__call__(self, eng, callee, args, st)
-        if r is None and self.orig_resolve(eng, callee, args) is None:
+        if r is None and self.resolve(eng, callee, args) is None:
             # any other accessor: an opaque value named after the call (it then shows up as the wrong source of the bytes)
             return one(Opaque("result-of", re.sub(r"::<.*", "", c)))
         return r
@@ -106,6 +137,7 @@ def ob_pem(fns):
         e = Engine(fns, models)
         env = PemEnv(models, "pem")
         models.call = env
+        models.resolve = env.resolve
         return e
 
     def fail(msg):
@@ -165,6 +197,12 @@ def ob_pem(fns):
             ob.paths += 1
             dl = [e for e in s2.events if e[0] == "der-loader"]
             ps = [e for e in s2.events if e[0] == "parse"]
+            leaks = [e for e in s2.events if e[0] == "leak"]
+            if leaks:
+                ob.result = "fail"
+                ob.reason = f"{kind}: the decoded PEM block (key material for the private key loaders) is handed to {leaks[0][1]} - an error text or log line would quote it"
+                ob.cex = {"op": "pem", "features": ["x509-parser", "pem"], "what": ob.reason}
+                return ob
             if not dl:
                 continue
             n_ok += 1
